@@ -5,7 +5,9 @@ TypeSpec (JSON):
   {"k":"string"}
   {"k":"struct","name":"S3","fields":[["f0",T],...]}
   {"k":"array","name":None|"A5","item":T,"shape":[3,None,2],"order":[0,2,1]}
-  {"k":"ref","to":T}                      T struct or array
+  {"k":"ref","to":T}                      T struct or array; as a struct field optionally "default": v (a model value of
+                                          T: the field is declared xo.Field(Ref[T], default=<data>); an omitted field
+                                          and every item of an array created by length get a referent of their own)
   {"k":"unionref","name":"U2","members":[T,...]}   members struct or array, distinct names
 
 Model values (JSON):
